@@ -597,7 +597,15 @@ def run_property(prop, tier, harnesses, meta, jobs=None, pre=None):
 def write_evidence(prop, tier, seed, meta, results, wall, nviol, pre_info, inconclusive=None, replays_ok=0, known_hits=None):
     passed = [r for r in results if r["status"] == "pass"]
     queries = sum(r["checks_total"] + len(r["covers"]) for r in results)
-    nontrivial = sum(1 for r in passed if r["checks_total"] > 0 and (not r["covers"] or all(s == "SATISFIED" for s in r["covers"].values())))
+    # a non-trivial case = a (harness, reachability witness) pair whose witness the solver SATISFIED in a harness that ended
+    # SUCCESSFUL (every such pair is a distinct class of inputs shown reachable under the harness's assumptions and
+    # covered by its assertions); a passed harness without witnesses counts once
+    nontrivial = 0
+    for r in passed:
+        if r["checks_total"] <= 0:
+            continue
+        sat = sum(1 for st in r["covers"].values() if st == "SATISFIED")
+        nontrivial += sat if sat > 0 else 1
     samples = []
     for r in results[:40]:
         samples.append({"harness": r["harness"], "verdict": r["status"], "checks": r["checks_total"],
@@ -613,8 +621,9 @@ def write_evidence(prop, tier, seed, meta, results, wall, nviol, pre_info, incon
         "distinct_nontrivial": nontrivial,
         "rule": "evaluations = solver queries discharged in this run (every Kani/CBMC check incl. the property assertions, "
                 "the unwinding assertions and the reachability witnesses, summed over harnesses); distinct_nontrivial = "
-                "harness cases that ended SUCCESSFUL with at least one assertion reached and every kani::cover! witness SATISFIED "
-                "(each harness is one query family over all symbolic inputs inside the stated bounds)",
+                "number of distinct (harness, reachability witness) pairs whose kani::cover! witness the solver satisfied inside a harness "
+                "that ended SUCCESSFUL (a passed harness without witnesses counts once); each harness is one query family over all "
+                "symbolic inputs inside the stated bounds",
         "samples": samples or [{"note": "no harness ran"}],
         "exhaustive": bool(meta.get("exhaustive_when_all_pass")) and len(passed) == len(results) and tier == meta.get("exhaustive_tier", "thorough"),
         "functions_encoded": meta.get("functions", []),
